@@ -68,6 +68,13 @@ CLAIMED["C19"] = ("DESIGN.md §4 C19",
     "is installed, and every accept loop dispatches only under its true edge; in every Address construction case the tested fields include the socket peer and "
     "the forwarded-for origin. What the kernel reports as peer address is trusted.")
 
+CLAIMED["C03"] = ("DESIGN.md §4 C03",
+    "R-PANIC (panic-site inventory over the call graphs of 16 parser entry points with mechanical discharge: constants/intervals, same-value guard domination incl. assert-wrapper summaries, infallible idioms, reviewed table with re-checked conditions), R-RECUR (depth gate on every call-graph cycle), R-ALLOC (taint from claimed lengths to allocation sizes), R-PROGRESS (every loop cycle consumes input), R-PARTIALREAD",
+    "Decides for the HTTP request (threaded + tokio) and response parsers, WebSocket frame/message decoders, JSON parser and configuration parser: every site that "
+    "can panic (overflow/bounds/div asserts, panicking std APIs, panic!/assert!) is discharged or reported; every recursion cycle passes a depth gate and MAX_DEPTH <= 1024; "
+    "no allocation is sized by an unbounded peer-claimed length; every loop cycle consumes input; the count of a bare read() is used. Known findings: claimed-length "
+    "allocations (5 sites), unbounded config recursion. Wall-clock bounds and allocation inside std are not decided.")
+
 NOT_YET = {}
 
 NOT_APPLICABLE = {
